@@ -17,7 +17,7 @@ RULE = (
     "set is compared with the table slices the library stores on that target (source of truth): every emitted point lies within 0.0051 "
     "(Chebyshev) of a table row, in table order; every table row inside the non-flat extent lies within 0.011 (Chebyshev, point to "
     "polyline) of the emitted curve; per segment the colour follows the sign of the enthalpy change and no step inside a segment has the "
-    "opposite sign; extents equal the stream duties (composite curves) and Qh / Qc (grand composite); graph-set keys = record names, "
+    "opposite sign; extents equal the stream duties (composite curves), Qh / Qc (grand composite) and the summed zonal utility duties (total-site utility profiles); the table stored behind each emitted graph is, column by column, a slice of the target's own problem table (real scale for 'Composite Curves', shifted for 'Shifted Composite Curves' and the GCC); graph-set keys = record names, "
     "names match, types are documented GraphType values, none twice, DI sets hold CC, SCC, GCC and total-site sets hold TSP, SUGCC. "
     "non-trivial = some emitted curve has >= 4 vertices; distinct by canonical JSON."
 )
@@ -104,6 +104,36 @@ def check_curve(out: Outcome, where, rows, pts):
         out.fail("C13.row_not_reproduced", f"{where}: table row {wr} lies {worst:.4g} from the emitted polyline ({ext[1] - ext[0] + 1} rows in the extent, {len(pts)} points emitted)")
 
 
+SOURCE = {"Composite Curves": ["pt_real"], "Shifted Composite Curves": ["pt"], "Grand Composite Curve": ["pt"], "Grand Composite Curve (Real)": ["pt_real"]}
+
+
+def check_source(out: Outcome, where, tbl, t, gtype):
+    """The table behind a graph is a slice of the target's own problem table (real scale for the plain composite
+    curves, shifted for the shifted ones and the GCC; either for the rest), column by column under the same name."""
+    import numpy as np
+
+    cols = list(tbl.columns)
+    tried = []
+    for which in SOURCE.get(gtype, ["pt", "pt_real"]):
+        src = getattr(t, which, None)
+        if src is None:
+            continue
+        bad = None
+        for c in cols:
+            try:
+                a, b = np.asarray(tbl.col[c], float), np.asarray(src.col[c], float)
+            except Exception:  # noqa: BLE001 - column absent from that table
+                bad = f"{c} absent"
+                break
+            if a.shape != b.shape or not np.allclose(a, b, rtol=0.0, atol=5.1e-5, equal_nan=True):
+                bad = f"{c} differs"
+                break
+        if bad is None:
+            return
+        tried.append(f"{which}: {bad}")
+    out.fail("C13.table_not_a_slice", f"{where}: the stored graph table {cols} is not a slice of the target's problem table ({'; '.join(tried)})")
+
+
 def eval_case(case) -> Outcome:
     from OpenPinch.lib.enums import GraphType
 
@@ -152,6 +182,16 @@ def eval_case(case) -> Outcome:
                 T = [float(v) for v in tbl.col["T"]]
                 segs = [(s.title, s.colour, [(dp.x, dp.y) for dp in s.data_points]) for s in g.segments]
                 where = f"{key} [{g.type}]"
+                check_source(out, where, tbl, t, g.type)
+                if g.type == "Total Site Profiles":
+                    tz = an.target(zone, S.TZ)
+                    if tz is not None and c is not None:
+                        for col, us, nm in (("H_hot_utility", tz.hot_utilities, "hot"), ("H_cold_utility", tz.cold_utilities, "cold")):
+                            vals = [float(v) for v in tbl.col[col]]
+                            span = max(vals) - min(vals)
+                            want = sum(float(u.heat_flow) for u in us)
+                            if abs(span - want) > 2e-4 + P.eps_of(c):
+                                out.fail("C13.extent", f"{where} {col}: the {nm}-utility profile spans {span!r} but the zones use {want!r} of {nm} utility in total")
                 if g.type in ("Composite Curves", "Shifted Composite Curves", "Balanced Composite Curves", "Total Site Profiles"):
                     cols = {
                         "Composite Curves": [("H_hot", "Hot CC", 0), ("H_cold", "Cold CC", 1)],
